@@ -175,13 +175,20 @@ def inputs(ctx):
     looks = ["use <i> for italics", "x<c and c>y", "<v Bob> hi", "wait <00:00:05.000> here", "a<b and c>d", "x</i>y",
              "<ruby>x</ruby>", "<lang en>x", "<b>bold</b>", "a<u>b", "<c.yellow>x</c>", "1 < 2 > 0", "a<>b", "<!-- x -->y",
              "a<br>b", "a<br/>b", "<span>x</span>", "<p>x", "a<i", "i>a", "a <i b", "<1>x", "AT&T <i>Corp</i>", "a<rt>b</rt>",
-             "x <v.loud Ann>y", "</v>x", "<i>", "a&lt;i&gt;b", "a&amp;lt;b", "&#60;i&#62;x"]
+             "x <v.loud Ann>y", "</v>x", "<i>", "a&lt;i&gt;b", "a&amp;lt;b", "&#60;i&#62;x",
+             # authored text that spells out a reference (the source then holds &amp;apos; and so on)
+             "it&apos;s", "say &quot;hi&quot;", "a&nbsp;b", "&#39;x&#39;", "&amp;apos;", "R&amp;D &apos;lab&apos;", "&lrm;x", "50&percnt;"]
     for text in looks:
         for fmt in FORMATS:
             items = chs(text)
             if serialise(items, fmt) is not None and _admissible(items, fmt):
                 ins.append({"id": "k%d" % n, "fmt": fmt, "cues": [items, chs("z")]})
                 n += 1
+    # SRT blocks separated by lines that hold white space only (editors that keep trailing blanks)
+    for sep in (" ", "\t", "  \t "):
+        for text in ("one", "two words", "a<b"):
+            ins.append({"id": "k%d" % n, "fmt": "SRT", "cues": [chs(text), chs("middle"), chs("z")], "sep": sep})
+            n += 1
     # a text node that is wrapped over source lines AND touches an inline element with a space
     for fmt, kinds in (("DFXP", ["span", "spanstyle"]), ("SAMI", ["i", "b", "u", "span", "spanstyle"])):
         for kind in kinds:
@@ -270,6 +277,8 @@ def execute(inp):
         if fmt == "SRT":
             doc = render.srt_doc([("00:00:%02d,000" % (2 * k + 1), "00:00:%02d,000" % (2 * k + 2), b.split("\n"))
                                   for k, b in enumerate(bodies)])
+            if inp.get("sep"):
+                doc = doc.replace("\n\n", "\n" + inp["sep"] + "\n")
             cs = pycaption.SRTReader().read(doc)
         elif fmt == "WebVTT":
             doc = render.webvtt_doc([("00:00:%02d.000" % (2 * k + 1), "00:00:%02d.000" % (2 * k + 2), b.split("\n"))
